@@ -120,8 +120,8 @@ def main(run: core.Run) -> None:
     lfs = [2, 3, 4] if tier == 'quick' else [2, 3, 4, 5, 7]
     run.rule = ('fixpoint BFS over the real TokenStore: state = block layout + all caches (canon), transition = '
                 'one API call (splice/insert_after/insert_before/remove/replace incl. re-insertion permutations) '
-                'with every (i, j, inserted pattern) under the token cap; non-trivial = distinct (pre,post) canonical '
-                'state pairs with post != pre; oracle = lock-step plain list')
+                'with every (i, j, inserted pattern) under the token cap; non-trivial = distinct canonical '
+                'post-states that differ from their pre-state; oracle = lock-step plain list')
     run.assumptions = [
         'load factor is set by re-executing token_store.py\'s own module-level threshold assignments',
         'token texts are abstracted to classes x / newline: the store reads only len(block.tokens) and size.line/column',
